@@ -52,8 +52,8 @@ Record p_race := mkPRace {
 Definition N_to_hex012 (n : N) : bytes :=
   let h := N_to_hex false n in repeat 48 (12 - List.length h) ++ h.
 
-(* "Read" / "Write" for the operation of index 0, "Previous read" /
-   "Previous write" for the others *)
+(* Read / Write for the operation of index 0, Previous read /
+   Previous write for the others *)
 Definition race_kind (first write : bool) : bytes :=
   if first then (if write then s2b "Write" else s2b "Read")
   else (if write then s2b "Previous write" else s2b "Previous read").
@@ -111,10 +111,12 @@ Definition race_lines (r : p_race) : list bytes :=
   [race_separator; race_warning] ++ race_ops_lines (pr_ops r) ++
   race_creations_lines (pr_creations r) ++ [race_separator].
 
+(* the text of a list of lines: each one followed by LF *)
 Definition add_lf (l : bytes) : bytes := l ++ [LF].
+Definition text_of (lines : list bytes) : bytes := List.concat (map add_lf lines).
 
 (* printRace *)
-Definition print_race (r : p_race) : bytes := List.concat (map add_lf (race_lines r)).
+Definition print_race (r : p_race) : bytes := text_of (race_lines r).
 
 (* ------------------------------------------------------------------ *)
 (* 3. the snapshot a report denotes (expRace)                          *)
@@ -169,16 +171,20 @@ Definition wf_race_creation (ops : list p_race_op) (c : p_race_creation) : bool 
      pairwise distinct, addresses < 2^64, stacks of >= 1 well-formed frame;
    - at least one creation section: with none the closing separator comes
      right after the blank line of the last operation, where the scanner
-     only accepts an operation or creation header (see Properties/C08.v);
-   - every creation section names the goroutine of some operation, at most
-     one section per goroutine, stacks of >= 1 well-formed frame. *)
+     only accepts an operation or creation header (see Properties/C08.v,
+     C08_no_creation_section);
+   - every creation section names the goroutine of some operation (hence
+     its id is < 10^18) and has a stack of >= 1 well-formed frame.
+   The sections may come in any order and for any non-empty subset of the
+   goroutines.  The generator prints at most one section per goroutine; this
+   is NOT required here: on repeated sections expRace and the scanner agree
+   (the State of the last one, the calls of all of them appended). *)
 Definition wf_race (r : p_race) : bool :=
   (match pr_ops r with [] => false | _ => true end) &&
   forallb wf_race_op (pr_ops r) &&
   distinct_N (map ro_gid (pr_ops r)) &&
   (match pr_creations r with [] => false | _ => true end) &&
-  forallb (wf_race_creation (pr_ops r)) (pr_creations r) &&
-  distinct_N (map rc_gid (pr_creations r)).
+  forallb (wf_race_creation (pr_ops r)) (pr_creations r).
 
 (* ------------------------------------------------------------------ *)
 (* 5. a realistic report is well-formed                                *)
